@@ -48,16 +48,53 @@ class Check:
     def __init__(self, acc):
         self.acc = acc
         self.events = None
+        self.raw = None
 
     def on_commit(self, sim, con):
         for kind, msg in refmodel.invariants(con, ownership=True):
             if kind in ("tree-ownership", "glob-matches-product", "output-edge", "static-with-source"):
                 short = msg.split(" (")[0]
                 if kind == "glob-matches-product":
-                    # one class: the product was declared before the pattern and is not built yet
-                    short = "unbuilt-product-declared-first" if "(PLANNED)" in msg or "(VOLATILE)" in msg else msg
+                    short = self.classify_glob(msg)
                 self.acc.violation(f"C08|{kind}|{short}", {"invariant": kind, "what": msg, "events": self.events},
                                    {"events": self.events})
+
+    def classify_glob(self, msg):
+        """Root cause class of 'an attached pattern matches an attached product', from the order
+        of the declarations in the event list that reached the state:
+        - the pattern was accepted after the product was declared and before its step ever
+          finished (register_nglob only looks at matches on disk): known asymmetry;
+        - the product was (re-)declared after the pattern and the pattern belongs to the
+          product's own step (registered while that step was detached and running): the patterns
+          of a detached step come back unchecked when the step is recycled;
+        - the product was (re-)declared after a pattern of another, attached step: never
+          acceptable (what _raise_if_glob_match exists for)."""
+        import re
+
+        mm = re.match(r"pattern (\S+) of step:(.+) matches (\S+)", msg)
+        if not mm or self.raw is None:
+            return msg
+        pat, owner, path = mm.group(1), mm.group(2), mm.group(3)
+        ipat = iprod = -1
+        prod_step = None
+        for i, e in enumerate(self.raw):
+            if e[0] != "req":
+                continue
+            req = e[2]
+            if req[0] == "register_glob" and req[2] == pat:
+                ipat = i
+            elif req[0] == "declare_static" and any(p[0] == pat for p in req[4]):
+                ipat = i
+            elif req[0] == "define_step" and path in (list(req[5]) + list(req[6])):
+                iprod, prod_step = i, req[2]
+            elif req[0] == "amend_step" and path in (list(req[4]) + list(req[5])):
+                iprod, prod_step = i, e[1]
+        if ipat > iprod:
+            finished = any(e[0] == "exit" and e[1] == prod_step for e in self.raw[iprod:ipat])
+            return "unbuilt-product-declared-first" if not finished else "pattern-accepted-over-built-product"
+        if owner == prod_step:
+            return "own-pattern-of-detached-step-recycled"
+        return "product-accepted-under-registered-pattern"
 
     def after_event(self, machine, ev, before, after, info, sim):
         pass
@@ -65,6 +102,7 @@ class Check:
 
 def send(m, check, events):
     check.events = [repr(e)[:160] for e in events]
+    check.raw = list(events)
     st = m.replay(events)
     last = st["info"]["last"]
     reply = last["reply"] if last else None
@@ -119,6 +157,10 @@ def jobs(tier, seed):
     for ia in idx:
         out.append({"part": "pairs", "ia": ia, "tier": tier})
     out.append({"part": "spell", "tier": tier})
+    m = opx.Machine(menu=RECYCLE_MENU, njob=3, targets_menu=((),), fs_events=False, exits=["ok"])
+    depth = 6 if tier == "quick" else 8
+    for root in opx.split_frontier(m, [("start", ())], 3):
+        out.append({"part": "recycle", "root": root, "depth": depth - 2})
     if tier == "thorough":
         for ia in idx:
             out.append({"part": "triples", "ia": ia, "tier": tier})
@@ -275,9 +317,42 @@ def run_spell(spec, acc):
 import os  # noqa: E402
 
 
+RECYCLE_MENU = [opx.MENU_STEPS[5], opx.MENU_STATIC[8], opx.MENU_STATIC[7]]
+
+
+def run_recycle(spec, acc):
+    """Declarations that arrive while an earlier owner is detached but recyclable: a step is
+    defined (and may run), its creator is killed and runs again, patterns and steps are declared
+    in every order. Breadth-first over canonical states, invariants at every commit."""
+    check = Check(acc)
+    m = opx.Machine(menu=RECYCLE_MENU, njob=3, check=check, targets_menu=((),), fs_events=False,
+                    exits=["ok"])
+    orig = m.replay
+
+    def replay(events):
+        check.events = [repr(e)[:160] for e in events]
+        check.raw = list(events)
+        return orig(events)
+
+    m.replay = replay
+
+    def visit(events, st):
+        acc.evaluations += 1
+        acc.states.add("r" + st["key"])
+        if any(e[0] == "kill" for e in events):
+            acc.nontrivial.add("r" + st["key"])
+
+    nstates, ntrans, trunc, closed = opx.bfs(m, [spec["root"]], spec["depth"], visit)
+    acc.transitions += ntrans
+    if trunc:
+        acc.caps.append("recycle: state cap")
+
+
 def run_job(spec):
     acc = Acc()
-    if spec["part"] == "pairs":
+    if spec["part"] == "recycle":
+        run_recycle(spec, acc)
+    elif spec["part"] == "pairs":
         run_pairs(spec, acc)
     elif spec["part"] == "triples":
         run_triples(spec, acc)
